@@ -10,7 +10,7 @@
 From Coq Require Import List Bool Arith NArith ZArith Lia.
 From Coq.Strings Require Import Byte.
 From GI Require Import Lib.Bytes Lib.GoSem Lib.GoSemWorld Gen.TxtarWriteConsts Txtar.Txtar
-  TxtarWrite.Path TxtarWrite.TxtarWrite TxtarWrite.Fd TxtarWrite.FdFacts TxtarWrite.Cli TxtarWrite.SrcLib TxtarWrite.SrcWorld
+  TxtarWrite.Path TxtarWrite.PathFacts TxtarWrite.TxtarWrite TxtarWrite.WriteFacts TxtarWrite.Fd TxtarWrite.FdFacts TxtarWrite.Cli TxtarWrite.SrcLib TxtarWrite.SrcWorld
   Gen.TxtarWriteWorldSrc TxtarWrite.SrcWorldFacts.
 Import ListNotations.
 
